@@ -207,10 +207,29 @@ func c16Check(c C16Case, rec *Recorder) *Disc {
 						return discf("ACAM %q names something other than * or the requested method %q: %s", v, acrm, where)
 					}
 				case hACAH:
-					ok := eq1(v, "*") || (eq1(v, "*,authorization") && !cfg.Credentialed && hstar && auth) || (hasACRH && eqStrs(v, acrh))
-					if !ok {
-						return discf("ACAH %q is neither *, the documented *,authorization, nor the request's own ACRH lines %q: %s", v, acrh, where)
+					// every token named is *, the documented authorization next to *, or a token the request itself supplied
+					// (how the tokens are spread over field lines is not pinned)
+					supplied := map[string]bool{}
+					for _, l := range acrh {
+						for _, el := range strings.Split(l, ",") {
+							supplied[strings.Trim(el, " \t")] = true
+						}
 					}
+					sawStar := false
+					for _, l := range v {
+						for _, el := range strings.Split(l, ",") {
+							tok := strings.Trim(el, " \t")
+							switch {
+							case tok == "*":
+								sawStar = true
+							case tok == "" || (hasACRH && supplied[tok]):
+							case tok == "authorization" && !cfg.Credentialed && hstar && auth:
+							default:
+								return discf("ACAH %q names %q, which is neither *, the documented authorization next to *, nor a token of the request's own ACRH lines %q: %s", v, tok, acrh, where)
+							}
+						}
+					}
+					_ = sawStar
 				case hACMA:
 					if !eqStrs(v, expectedACMA(cfg)) {
 						return discf("ACMA %q, configured %q: %s", v, expectedACMA(cfg), where)
@@ -242,7 +261,7 @@ func c16Check(c C16Case, rec *Recorder) *Disc {
 func TestC16(t *testing.T) {
 	Prop[C16Case]{ID: "C16", Gen: c16Gen, Check: c16Check,
 		Rule: "generator: valid configuration extended with canary entries (an origin, a method, a request-header and a response-header name that no generated request mentions), debug off, x batch of 4-20 arbitrary preflight requests (any Origin incl. malformed/multi-valued, any ACRM, 0-3 ACRH lines, ACRPN), all served through ONE wrapped handler (one Wrap call) in sequence so that state kept between requests shows. " +
-			"Oracle: ACAO present iff the reference outcome model (origin model + PNA switch + method rule + reference ACRH reader) says the preflight succeeds; no ACAO => no Access-Control-* header and the same status as a preflight from the null origin; ACAO => success status and only *, true, the configured max-age and tokens the request itself supplied (ACAH = * | documented *,authorization | the request's own lines), ACAC only on a credentialed configuration, ACAPN only if the request sent ACRPN: true; no canary substring anywhere; " +
+			"Oracle: ACAO present iff the reference outcome model (origin model + PNA switch + method rule + reference ACRH reader) says the preflight succeeds; no ACAO => no Access-Control-* header and the same status as a preflight from the null origin; ACAO => success status and only *, true, the configured max-age and tokens the request itself supplied (every ACAH token is *, the documented authorization next to *, or a token of the request's own ACRH lines), ACAC only on a credentialed configuration, ACAPN only if the request sent ACRPN: true; no canary substring anywhere; " +
 			"metamorphic: removing the canaries (and serving the request alone through a freshly wrapped handler) does not change the response (when the base keeps >=1 request-header entry). non-trivial = preflight from an allowed origin that fails at a later step, or succeeds with ACRH present; distinct by (configuration, request).",
 		Assumptions: []string{"a preflight from Origin: null is the reference failure for every configuration"}}.Run(t)
 }
